@@ -232,7 +232,7 @@ func reshareEc(r *Run, rng *rand.Rand, ks *ecKeySet, oldSub []int, newN, newT in
 }
 
 func runC04(r *Run, rng *rand.Rand, thorough bool) {
-	r.Rule = "whole resharing runs (EdDSA: old (n,t) ∈ {(2,1),(3,1),(3,2),(4,2)}, old subsets of size t+1 and t+2, new (n',t') with t' <,=,> t; ECDSA on the vendored key with proofs on/off) under every delivery strategy incl. pre-Start delivery and, per message type, one held-back delivery of that type (one slow packet); the ordering invariants are evaluated after EVERY start/delivery (every prefix is a cut point); chains of resharings followed by signing; an old member in each position resharing a consistently shifted key (x+1, Y+λG); non-trivial = one completed run; direct assertions: same group key, C03 clauses for the new committee, t'+1 new members sign, no old share erased and no new key emitted before every new member acknowledged"
+	r.Rule = "whole resharing runs (EdDSA: old (n,t) ∈ {(2,1),(3,1),(3,2),(4,2)}, old subsets of size t+1 and t+2, new (n',t') with t' <,=,> t; ECDSA on the vendored key with proofs on/off) under every delivery strategy incl. pre-Start delivery and, per message type, one held-back delivery of that type (one slow packet); the ordering invariants are evaluated after EVERY start/delivery (every prefix is a cut point); chains of resharings followed by signing; an old member in each position resharing a consistently shifted key (x+1, Y+λG); tampered EdDSA resharing runs in which every new member's side is re-judged by the Lean model (key agreement, share checks, V_0 = y, culprits); non-trivial = one completed run; direct assertions: same group key, C03 clauses for the new committee, t'+1 new members sign, no old share erased and no new key emitted before every new member acknowledged"
 	oldCfg := [][2]int{{2, 1}, {3, 1}}
 	if thorough {
 		oldCfg = [][2]int{{2, 1}, {3, 1}, {3, 2}, {4, 2}, {5, 2}}
@@ -306,6 +306,7 @@ func runC04(r *Run, rng *rand.Rand, thorough bool) {
 		}
 	}
 	reshareHoldRuns(r, rng)
+	blameCorrespondenceRs(r, rng, thorough)
 	// one old member, in each position, reshares a consistent-but-different key
 	for dev := 0; dev < 3; dev++ {
 		reshareShiftedKey(r, rng, "ed", dev)
